@@ -500,6 +500,7 @@ func Supervise(c *Check, o Opts) int {
 	agg := &aggregate{faults: map[string]int{}, probes: map[string]int{}, cases: map[uint64]bool{}, states: map[uint64]bool{}, digests: map[uint64]string{}}
 	found := map[string]*foundViolation{}
 	infra := []string{}
+	warnings := []string{}
 	checkHash := HashStr(c.ID)
 
 	var wg sync.WaitGroup
@@ -535,9 +536,10 @@ func Supervise(c *Check, o Opts) int {
 						} else {
 							mu.Lock()
 							agg.flakyDeaths++
-							if !oc.timeout {
-								infra = append(infra, fmt.Sprintf("worker died on seed %d but the solo re-run passed: %s", j.seed, trunc(oc.stderr, 400)))
-							}
+							agg.runs++
+							// not reproducible alone: memory pressure from earlier runs in the same worker or a
+							// busy machine. Counted in the evidence; becomes trouble only if frequent.
+							warnings = append(warnings, fmt.Sprintf("worker died on seed %d but the solo re-run passed (timeout=%v): %s", j.seed, oc.timeout, trunc(oc.stderr, 200)))
 							mu.Unlock()
 							p2.kill()
 						}
@@ -666,6 +668,12 @@ func Supervise(c *Check, o Opts) int {
 	}
 	fmt.Printf("%s tier=%s seed=%d runs=%d evals=%d distinct_nontrivial=%d states=%d ticks=%d violations=%d known=%d wall=%.1fs\n",
 		c.ID, o.Tier, o.Seed, agg.runs, agg.evals, len(agg.cases), len(agg.states), agg.ticks, len(unknown), len(known), wall)
+	for _, w := range warnings {
+		fmt.Fprintln(os.Stderr, "warning:", w)
+	}
+	if agg.runs > 0 && len(warnings)*200 > agg.runs+2000 {
+		infra = append(infra, fmt.Sprintf("%d worker deaths that did not repeat alone in %d runs", len(warnings), agg.runs))
+	}
 	if len(infra) > 0 {
 		for _, m := range infra {
 			fmt.Fprintln(os.Stderr, "infrastructure:", m)
